@@ -56,8 +56,8 @@ def exhaustive_part(v, universe, invariants, gens, owned, max_judge=400, always_
         raise common.MachineryFailure("replay harness exception: " + harness[0]["detail"])
     v.cov["executions_differing_from_spec"] = v.cov.get("executions_differing_from_spec", 0) + len(mism)
     mism.sort(key=lambda m: 0 if any(c in owned for c in m["clauses"]) else 1)
-    todo = common.spread([m for m in mism if "ctor_error" not in m["clauses"]],
-                         lambda m: (m["d"], tuple(sorted(m["clauses"])), json.dumps(m["gen"]), m.get("how")), max_judge)
+    todo = common.spread2([m for m in mism if "ctor_error" not in m["clauses"]], lambda m: tuple(sorted(m["clauses"])),
+                          lambda m: (m["d"], json.dumps(m["gen"]), m.get("how")), max_judge)
     names_list = []
     if todo:
         tres, out = rv.judge([m["obs"] for m in todo])
